@@ -48,8 +48,10 @@ def enumerate_set(g, decider, d, cap):
                 seen.add(k)
                 terms.append(t)
     except Exhausted:
-        return None
-    return terms, sorted(set(errors))
+        # the decision tree is larger than the budget: what was reached so far is still evidence (a program outside
+        # the language is a violation however many others there are); reported as an INCOMPLETE set
+        return terms[: max(cap // 8, 50)], sorted(set(errors)), False
+    return terms, sorted(set(errors)), True
 
 
 def one(spec, batch, stats, cap, prop):
@@ -63,15 +65,14 @@ def one(spec, batch, stats, cap, prop):
             for d in range(max(mind, 1), mind + 4):
                 if GR.lang_size(spec, d) > 4 * cap:
                     break       # count first: TLC has to build Lang(d) itself (FullLang filters it), keep it affordable
-                r = enumerate_set(g, decider, d, cap)
-                if r is None:
-                    break
-                terms, errors = r
+                terms, errors, complete = enumerate_set(g, decider, d, cap)
                 if len(terms) > cap // 4:
                     break
                 evs.append({"e": "impl_set", "decider": decider, "d": d, "programs": terms, "errors": errors,
-                            "phase": "single"})
+                            "phase": "single", "complete": complete})
                 stats["programs"] += len(terms)
+                if not complete:
+                    break
         if evs:
             batch.trace(spec["id"], evs, {"k": "c04", "g": decl})
             stats["events"] += len(evs)
@@ -109,10 +110,13 @@ def one_redeclared(spec, batch, stats, cap):
         evs = []
         for d in range(max(mind, 1), mind + 2):
             r = enumerate_set(g, "grow", d, cap)
-            if r is None or len(r[0]) > cap // 4:
+            if len(r[0]) > cap // 4:
                 break
-            evs.append({"e": "impl_set", "decider": "grow", "d": d, "programs": r[0], "errors": r[1], "phase": "single"})
+            evs.append({"e": "impl_set", "decider": "grow", "d": d, "programs": r[0], "errors": r[1], "phase": "single",
+                        "complete": r[2]})
             stats["programs"] += len(r[0])
+            if not r[2]:
+                break
         if evs:
             batch.trace(spec["id"] + "/redeclared", evs, {"k": "c04", "g": decl})
             stats["events"] += len(evs)
@@ -130,9 +134,9 @@ def one_c10(spec, batch, stats, cap):
         mind = int(g.get_min_tree_depth())
         d = mind + 1
         r = enumerate_set(g, "grow", d, cap)
-        if r is None:
+        if not r[2]:
             return
-        evs = [{"e": "impl_set", "decider": "grow", "d": d, "programs": r[0], "errors": r[1], "phase": "before"}]
+        evs = [{"e": "impl_set", "decider": "grow", "d": d, "programs": r[0], "errors": r[1], "phase": "before", "complete": True}]
         for seed in range(25):
             rs = NativeRandomSource(seed)
             for dd in (mind - 1, mind, mind + 2):
@@ -144,9 +148,9 @@ def one_c10(spec, batch, stats, cap):
                 except Exception:
                     pass
         r2 = enumerate_set(g, "grow", d, cap * 4)
-        if r2 is None:
-            r2 = ([], ["enumeration-exceeded-cap"])
-        evs.append({"e": "impl_set", "decider": "grow", "d": d, "programs": r2[0], "errors": r2[1], "phase": "after"})
+        if not r2[2]:
+            r2 = ([], ["enumeration-exceeded-cap"], True)
+        evs.append({"e": "impl_set", "decider": "grow", "d": d, "programs": r2[0], "errors": r2[1], "phase": "after", "complete": True})
         batch.trace("c10/" + spec["id"], evs, {"k": "c04", "g": decl})
         stats["events"] += 2
         stats["programs"] += len(r[0]) + len(r2[0])
